@@ -329,7 +329,35 @@ def trans_core(ops, a, b, c, depth: int = 0):
     return a, b, c
 
 
+def double_match_cell(a, b, c) -> str | None:
+    """Known transitivity failure among callables (F-C08j): a positional-or-keyword parameter of the left callable
+    corresponds to *two* parameters of the right one — one by position (through *args or a positional parameter)
+    and a different one by name (a keyword-only parameter or **kwargs).  Phase 2 of `are_parameters_compatible`
+    accepts that as long as neither of the two is required, so `a <: b` (both optional in b) and `b <: c` hold while
+    `a <: c` (one of them required in c) does not."""
+    from mypy.types import CallableType, get_proper_type
+    pa, pb, pc = get_proper_type(a), get_proper_type(b), get_proper_type(c)
+    if not all(isinstance(x, CallableType) for x in (pa, pb, pc)):
+        return None
+
+    def double(right, la):
+        if la.name is None or la.pos is None:
+            return None
+        by_name, by_pos = right.argument_by_name(la.name), right.argument_by_position(la.pos)
+        if by_name is None or by_pos is None or by_name == by_pos:
+            return None
+        return by_name.required or by_pos.required
+
+    for la in pa.formal_arguments():
+        if double(pb, la) is False and double(pc, la) is True:
+            return "callable≤callable≤callable[parameter matched by position and by name; requiredness differs]"
+    return None
+
+
 def trans_cell(a, b, c) -> str:
+    dm = double_match_cell(a, b, c)
+    if dm:
+        return dm
     if kind(b) == "callable" and kind(c) == "builtins.function":
         # anything that is a subtype of a callable without being a function (a class object, an instance with
         # __call__): callable <: builtins.function comes from the fallback, the left type has no such fallback
@@ -414,17 +442,20 @@ def real_passes(ctx: Ctx, u: Universe, ops: real.Ops, idx: list[int], tag: str):
 
 
 def cache_cell(u: Universe, pr: dict) -> str:
-    """Cell of a cache-dependent answer.  Known: a callback protocol (only member `__call__`) on one side and an
-    instance on the other — `is_protocol_implementation(..., class_obj=True)` records its positive result under
-    (instance, protocol)."""
-    from mypy.types import Instance, get_proper_type
-    ts = [get_proper_type(u.types[u.index[n]]) for n in pr["query"][1:]]
+    """Cell of a cache-dependent answer.  Known (F-C08f): a callback protocol (only member `__call__`) meets a
+    nominal instance, directly or as union items — `is_protocol_implementation(..., class_obj=True)` records its
+    positive result under (instance, protocol), so the answer flips from the cold one after a class-object check."""
+    from mypy.types import Instance, UnionType, get_proper_type
+
+    def atoms(t):
+        t = get_proper_type(t)
+        return [get_proper_type(i) for i in t.items] if isinstance(t, UnionType) else [t]
+    ts = [a for n in pr["query"][1:] for a in atoms(u.types[u.index[n]])]
     cb = [t for t in ts if isinstance(t, Instance) and t.type.is_protocol and t.type.protocol_members == ["__call__"]]
     other = [t for t in ts if isinstance(t, Instance) and not t.type.is_protocol]
-    if cb and other and pr["query"][0] in ("sub", "psub") and pr["pass"].startswith("warm") \
-            and pr["cold"] == "0" and pr.get("warm") == "1":
-        return "instance×callback-protocol[true only after a class-object check]"
-    return "×".join(kind(t) for t in ts)
+    if cb and other and pr["pass"].startswith("warm"):
+        return "instance×callback-protocol[answer changes after a class-object check]"
+    return "×".join(kind(u.types[u.index[n]]) for n in pr["query"][1:])
 
 
 # ------------------------------------------------------------------------------------ correspondence
